@@ -319,6 +319,7 @@ def obligations(ctx: Ctx):
         from props import C10_b
 
         obs.append(Ob(f"{P}.B1", "B", "contents x schema arguments x profiles x flag combinations on the four real tools; VALIDATED canonicals re-validate", [f"{V[0]}:{V[1]}", f"{W[0]}:{W[1]}", f"{J[0]}:{J[1]}", f"{G[0]}:{G[1]}"], C10_b.ob_b1, timeout=3000))
+        obs.append(Ob(f"{P}.B2", "B", "the CLI's `octave validate`: a VALIDATED claim is backed by the tool on the same input and on the printed canonical text", [f"{V[0]}:{V[1]}", f"{W[0]}:{W[1]}", f"{J[0]}:{J[1]}", f"{G[0]}:{G[1]}"], C10_b.ob_b2, timeout=3000))
     except ImportError:
         pass
     return obs
